@@ -54,6 +54,34 @@ def cases_module(cases):
     return "---- MODULE ClockCases ----\nEXTENDS Integers\nCases == <<\n%s\n>>\n====\n" % body
 
 
+def parse_tagged(out, tag):
+    """every << "tag", ... >> tuple of integers / nested tuples printed by TLC -> list of python lists"""
+    import re
+    res = []
+    pos = 0
+    rx = re.compile(r'<<\s*"%s"' % tag)
+    while True:
+        m = rx.search(out, pos)
+        if not m:
+            break
+        k = m.start()
+        depth, j = 0, k
+        while True:
+            if out.startswith("<<", j):
+                depth += 1
+                j += 2
+            elif out.startswith(">>", j):
+                depth -= 1
+                j += 2
+                if depth == 0:
+                    break
+            else:
+                j += 1
+        res.append(json.loads(out[k:j].replace("<<", "[").replace(">>", "]").replace("TRUE", "true").replace("FALSE", "false"))[1:])
+        pos = j
+    return res
+
+
 def parse_results(out):
     """<<"R", i, err, <<...>>, ...>> with integers only -> python lists (fast path through json)."""
     import re
